@@ -22,8 +22,8 @@ def run(ctx):
         cmds += o["commands"]
         for c in o["classes"]:
             res.distinct.add("|".join(c))
-        for sig, detail in o["findings"]:
-            res.findings.append(Finding(sig, detail, {"engine": "gate"}))
+        for (sig, detail), rp in zip(o["findings"], o.get("replays") or [{}] * len(o["findings"])):
+            res.findings.append(Finding(sig, detail, dict(engine="gate", **rp)))
         for s in o["samples"][:1]:
             res.add_sample(s)
         if o["inconclusive"]:
@@ -50,5 +50,20 @@ def run(ctx):
 
 
 def replay(ctx, path):
-    print("gate findings carry the full command sequence and configuration in 'detail'")
-    return 2
+    import json
+    with open(path) as f:
+        d = json.load(f)
+    rp = d.get("replay", {})
+    if "sequence" not in rp:
+        print("no sequence recorded; the finding's detail carries it")
+        return 2
+    binary, hooks = ctx.binary()
+    g = gate.GateRun(binary, hooks, rp["config"], 1)
+    g.run([rp["sequence"]])
+    for f_ in g.findings:
+        print("  ", f_)
+    if g.findings:
+        print("VIOLATION property=C03 replay=%s" % path)
+        return 1
+    print("sequence %s under configuration %s: conforms" % (rp["sequence"], rp["config"]))
+    return 0
